@@ -2,7 +2,7 @@
 
 For each /verif/seeded/<id>/: a scratch git worktree of /repo is created outside /repo and /verif, the patch is
 applied there, the checks named in meta.json["detected_by"] are run with VT_REPO pointing at it, and the
-worktree is removed.  /repo itself is never modified.   usage: tools_seeded.py [seed-id ...] [--scale 0.6]
+worktree is removed.  /repo itself is never modified.   usage: tools_seeded.py [--mutants] [id ...] [--scale 0.6]   (--mutants: /verif/mutants/*.diff instead)
 """
 import json
 import os
@@ -19,16 +19,26 @@ def main():
     if "--scale" in sys.argv:
         scale = sys.argv[sys.argv.index("--scale") + 1]
         args = [a for a in args if a != scale]
-    ids = args or sorted(os.listdir(os.path.join(ROOT, "seeded")))
+    mutants = "--mutants" in sys.argv
+    if mutants:
+        table = json.load(open(os.path.join(ROOT, "mutants", "mutants.json")))
+        ids = args or sorted(k for k in table if not k.startswith("_"))
+    else:
+        ids = args or sorted(os.listdir(os.path.join(ROOT, "seeded")))
     bad = 0
     for sid in ids:
-        d = os.path.join(ROOT, "seeded", sid)
-        meta = json.load(open(os.path.join(d, "meta.json")))
+        if mutants:
+            patch = os.path.join(ROOT, "mutants", sid + ".diff")
+            meta = {"detected_by": {c: "" for c in table[sid]["checks"]}}
+        else:
+            d = os.path.join(ROOT, "seeded", sid)
+            patch = os.path.join(d, "patch.diff")
+            meta = json.load(open(os.path.join(d, "meta.json")))
         wt = tempfile.mkdtemp(prefix="vt_seed_")
         os.rmdir(wt)
         subprocess.run(["git", "-C", "/repo", "worktree", "add", "-q", "--detach", wt, "HEAD"], check=True)
         try:
-            r = subprocess.run(["git", "-C", wt, "apply", os.path.join(d, "patch.diff")], capture_output=True, text=True)
+            r = subprocess.run(["git", "-C", wt, "apply", patch], capture_output=True, text=True)
             if r.returncode != 0:
                 print("%s: patch does not apply: %s" % (sid, r.stderr.strip()[:200]))
                 bad += 1
